@@ -526,6 +526,7 @@ def generate(args) -> tuple:
         for key, cc in callees:
             e.contracts[key] = cc
         c.bindings = dict(np_binding(e), **c.bindings)
+        c.timeout = max(c.timeout, 120)  # slowest case measured: 4 s on an idle machine, 34 s with 50 runnable processes
         obs, info = e.verify(c, text)
         info["assumed"] = list(e.assumed)
         return task, c.target, obs, info, None
